@@ -121,6 +121,13 @@ def _parent_of(o):
     return o.parent
 
 
+def _as_parent_location(o):
+    """What seq_chunk_to_parent / Sequence.reverse_complement do with a location: describe a child placed here."""
+    from inscripta.biocantor.parent.parent import Parent
+
+    return Parent(location=o)
+
+
 COMMON_INTERVAL = [
     S("__len__", _len),
     S("__hash__", _hash, weight=0.7),
@@ -480,6 +487,7 @@ LOCATION_OPS = [
     S("hash==twin", _hash_eq, "twin"),
     S("__eq__(ref)", _eq, "ref:location"),
     S("construct_frames_from_location", _construct_frames, "frame"),
+    S("Parent(location=self)", _as_parent_location, result="parent", weight=1.5),
 ]
 
 PARENT_OPS = [
